@@ -1,81 +1,62 @@
 /* Implementation-side driver for the container engine (C19).
- * case:  <kind>|op;op;...      kind = arr (more kinds are added per container)
- * array ops:  il:<v> if:<v> ia:<idx>:<v>  rf rl ra:<idx>  at:<idx> first last len
- * output: one line "<k> R tok tok ... dump=v,v,v"
+ * case:  <kind>|op;op;...      kinds are registered by harness/dsa_<kind>.c (DSA_REGISTER)
+ * output per case: one or more lines "<k> R tok tok ..."
  */
 #include "ares_private.h"
 #include "drv_common.h"
+#include "dsa_reg.h"
+#include <unistd.h>
+#include <sanitizer/lsan_interface.h>
 
-static long long destroyed_val;
-static int       destroyed_set;
-static void arr_destruct(void *p)
+static struct { const char *kind; dsa_run_fn fn; } kinds[32];
+static int nkinds;
+
+void dsa_register(const char *kind, dsa_run_fn fn)
 {
-  destroyed_val = *(long long *)p;
-  destroyed_set = 1;
+  if (nkinds < 32) { kinds[nkinds].kind = kind; kinds[nkinds].fn = fn; nkinds++; }
 }
 
-static void run_arr(long k, char *ops)
+long dsa_alloc_fail_at  = -1;
+int  dsa_alloc_fail_all = 0;
+long dsa_alloc_requests = 0;
+
+static int alloc_refused(void)
 {
-  ares_array_t *arr = ares_array_create(sizeof(long long), arr_destruct);
-  char         *save = NULL, *op;
-  size_t        i;
-  printf("%ld R", k);
-  for (op = strtok_r(ops, ";", &save); op; op = strtok_r(NULL, ";", &save)) {
-    long long     v = 0;
-    unsigned long idx = 0;
-    ares_status_t st;
-    destroyed_set = 0;
-    if (sscanf(op, "il:%lld", &v) == 1) {
-      st = ares_array_insertdata_last(arr, &v);
-      printf(" %d", (int)st);
-    } else if (sscanf(op, "if:%lld", &v) == 1) {
-      st = ares_array_insertdata_first(arr, &v);
-      printf(" %d", (int)st);
-    } else if (sscanf(op, "ia:%lu:%lld", &idx, &v) == 2) {
-      st = ares_array_insertdata_at(arr, idx, &v);
-      printf(" %d", (int)st);
-    } else if (strcmp(op, "rf") == 0 || strcmp(op, "rl") == 0 || sscanf(op, "ra:%lu", &idx) == 1) {
-      if (op[1] == 'f') st = ares_array_remove_first(arr);
-      else if (op[1] == 'l') st = ares_array_remove_last(arr);
-      else st = ares_array_remove_at(arr, idx);
-      if (destroyed_set) printf(" %d:%lld", (int)st, destroyed_val);
-      else printf(" %d", (int)st);
-    } else if (sscanf(op, "at:%lu", &idx) == 1) {
-      long long *p = ares_array_at(arr, idx);
-      if (p) printf(" %lld", *p); else printf(" N");
-    } else if (strcmp(op, "first") == 0) {
-      long long *p = ares_array_first(arr);
-      if (p) printf(" %lld", *p); else printf(" N");
-    } else if (strcmp(op, "last") == 0) {
-      long long *p = ares_array_last(arr);
-      if (p) printf(" %lld", *p); else printf(" N");
-    } else if (strcmp(op, "len") == 0) {
-      printf(" %zu", ares_array_len(arr));
-    } else {
-      printf(" BADOP");
-    }
-  }
-  printf(" dump=");
-  for (i = 0; i < ares_array_len(arr); i++) {
-    printf("%s%lld", i ? "," : "", *(long long *)ares_array_at(arr, i));
-  }
-  printf("\n");
-  ares_array_destroy(arr);
+  dsa_alloc_requests++;
+  if (dsa_alloc_fail_all) return 1;
+  if (dsa_alloc_fail_at == 0) { dsa_alloc_fail_at = -1; return 1; }
+  if (dsa_alloc_fail_at > 0) dsa_alloc_fail_at--;
+  return 0;
 }
+static void *drv_malloc(size_t n) { return alloc_refused() ? NULL : malloc(n); }
+static void *drv_realloc(void *p, size_t n) { return alloc_refused() ? NULL : realloc(p, n); }
+static void  drv_free(void *p) { free(p); }
 
 static void run_case(long k, char *line)
 {
   char *bar = strchr(line, '|');
+  int   i;
   if (!bar) { printf("%ld R BADCASE\n", k); return; }
   *bar = 0;
-  if (strcmp(line, "arr") == 0) run_arr(k, bar + 1);
-  else printf("%ld R BADKIND\n", k);
+  dsa_alloc_fail_at = -1;
+  dsa_alloc_fail_all = 0;
+  for (i = 0; i < nkinds; i++) {
+    if (strcmp(line, kinds[i].kind) == 0) {
+      kinds[i].fn(k, bar + 1);
+      /* attribute a leak to the case that caused it (exit code = LSAN_OPTIONS exitcode);
+       * the runner resumes with the next case */
+      if (__lsan_do_recoverable_leak_check()) { fflush(stdout); _exit(97); }
+      return;
+    }
+  }
+  printf("%ld R BADKIND\n", k);
 }
 
 int main(int argc, char **argv)
 {
-  ares_library_init(ARES_LIB_INIT_ALL);
-  int rc = drv_main(argc, argv, run_case);
+  int rc;
+  ares_library_init_mem(ARES_LIB_INIT_ALL, drv_malloc, drv_free, drv_realloc);
+  rc = drv_main(argc, argv, run_case);
   ares_library_cleanup();
   return rc;
 }
